@@ -14,7 +14,7 @@ Lemma nexp_step lc st a rest st' : Tr lc st a rest st' -> (nexp st' <= S (nexp s
 Proof.
   intros [e isack s' o nw kp k nwa Hev Hstep Ho Hnow Hsnd Hsink Hn2 Hslog Hn1 Hwd Hif HA' Hkp Hkeep Hpkt
          | id r Hev Hfind Hk Hwd Hwa HA' | Hev Hk Hwd Hwa Hag | Hev Hk Hwa Hwd HA' | Hev Hk Hwd Hwa HA'
-         | id tm ct Hev Hp Hq Hk Hwd Hwa HA' | ackno pid tm ct Hev Hq Hk Hwd Hwa HA'
+         | id Hev Hq Hk Hwd Hwa HA' | ackno pid tm ct Hev Hq Hk Hwd Hwa HA'
          | id tm ct Hev Hp Hnow Hsnd Hpkt Hn1 Hslog Hsink Hn2 Hwd Hif];
     try (destruct Hk as [k1 k2 k3 k4 k5 k6 k7]; unfold popped in *; lproj; rewrite (nexp_same _ _ k7); lia).
   - rewrite (nexp_cons _ _ _ Hslog). destruct (is_expire _); lia.
